@@ -386,9 +386,21 @@ func mask(locked bool) virtual.AttributesMask {
 }
 
 // run performs one call; it returns "ok" or "err" (the class of the result).
-func (w *world) run(o op) string {
+func (w *world) run(o op) string { return w.runOn(o, nil) }
+
+func (w *world) runOn(o op, fixed []virtual.PrepopulatedDirectory) string {
 	ctx := context.Background()
-	d, _ := w.dir(o.D)
+	pick := func(i int) virtual.PrepopulatedDirectory {
+		if fixed != nil {
+			if i < 0 {
+				i = -i
+			}
+			return fixed[i%len(fixed)]
+		}
+		d, _ := w.dir(i)
+		return d
+	}
+	d := pick(o.D)
 	name := path.MustNewComponent(names[o.N%len(names)])
 	errClass := func(err error) string {
 		if err != nil {
@@ -511,7 +523,7 @@ func (w *world) run(o op) string {
 	case "VirtualReadDir":
 		return stClass(d.VirtualReadDir(ctx, uint64(o.M), mask(o.A), &reporter{left: 1 + o.N}))
 	case "VirtualRename":
-		d2, _ := w.dir(o.D2)
+		d2 := pick(o.D2)
 		if !o.X {
 			// Moving a directory into itself or its own subtree is not refused by the
 			// code (TODO in VirtualRename; recorded under C13).  The resulting cycle
@@ -593,6 +605,17 @@ func (w *world) storm(o op) bool {
 		n = 5000
 	}
 	root := rng.New(o.S)
+	// Goroutines address only directories that existed before the storm: a
+	// directory under construction is not visible to other threads in the real
+	// system either (VirtualMkdir reads the new child's attributes without its
+	// lock, relying on exactly that).  Directories created during the storm are
+	// still reached through their parents, by name.
+	w.mu.Lock()
+	snapshot := append([]virtual.PrepopulatedDirectory(nil), w.dirs...)
+	w.mu.Unlock()
+	if len(snapshot) > 8 {
+		snapshot = snapshot[:8] // stay on the oldest directories: more contention
+	}
 	var wg sync.WaitGroup
 	for i := 0; i < t; i++ {
 		r, _ := root.Split()
@@ -600,10 +623,7 @@ func (w *world) storm(o op) bool {
 		go func() {
 			defer wg.Done()
 			for j := 0; j < n; j++ {
-				nd := w.ndirs()
-				if nd > 8 {
-					nd = 8 // stay on the oldest directories: more contention
-				}
+				nd := len(snapshot)
 				c := op{K: stormMethods[r.Intn(len(stormMethods))], D: r.Intn(nd), N: r.Intn(4), D2: r.Intn(nd), N2: r.Intn(4),
 					A: r.Chance(70), B: r.Chance(70), M: r.Intn(3), X: true}
 				// Names a, b (0, 1) are only ever directories, c, d (2, 3) only ever files,
@@ -633,7 +653,7 @@ func (w *world) storm(o op) bool {
 				if c.K == "VirtualLookup" || c.K == "VirtualReadDir" {
 					c.A = true // attributes that need the child's lock
 				}
-				w.run(c)
+				w.runOn(c, snapshot)
 			}
 		}()
 	}
